@@ -237,6 +237,7 @@ class C17(Property):
         return fm.UNITS.Quantity(np.array([float(np.asarray(g.to(units).magnitude).ravel()[0]) if g.units != units else float(np.asarray(g.magnitude).ravel()[0]) for g in got[:3]]), units)
 
     def _conversion(self, out, rnd, a, b):
+        ref_equiv = None
         x = np.array([rnd.uniform(-50, 50) for _ in range(4)])
         if rnd.random() < 0.25:
             x = np.array([rnd.randint(-2500, 2500) for _ in range(4)])  # integer payload: the converted result is not integral in general
@@ -285,7 +286,13 @@ class C17(Property):
                 o >> i
                 i.ping()
                 i.exchange_info()
-                o.push_data(fm.UNITS.Quantity(o_convert(x, a, pub_units), pub_units) if compat and rnd.random() < 0.6 else x.copy(), t0)
+                if compat and rnd.random() < 0.6:
+                    vals = x.astype(float) if pub_units == a else np.asarray(o_convert(x, a, pub_units), dtype=float)
+                    o.push_data(fm.UNITS.Quantity(vals.copy(), pub_units), t0)
+                    if pub_units == b:
+                        ref_equiv = vals  # published in the consumer's own units: those numbers must arrive unchanged
+                else:
+                    o.push_data(x.copy(), t0)
                 y = i.pull_data(t0)[0]
         except (fm.FinamDataError, fm.FinamMetaDataError) as e:
             if compat:
@@ -310,7 +317,8 @@ class C17(Property):
         got = np.asarray(np.ma.getdata(y.magnitude), dtype=float)
         scale = max(1.0, float(np.max(np.abs(exp))))
         if equiv:
-            ok = np.array_equal(got, x) or np.allclose(got, x, rtol=1e-12, atol=0)
+            ref = x if ref_equiv is None else ref_equiv
+            ok = np.array_equal(got, ref) or np.allclose(got, ref, rtol=1e-12, atol=0)
             out.count("equivalent_relabels")
         else:
             ok = np.allclose(got, exp, rtol=1e-9, atol=1e-9 * scale)
